@@ -593,6 +593,38 @@ def gen_op(rng, w, focus=False):
     wl = w.last.get("wl", {})
     auth = [(u, a) for (u, a), v in wl.items() if v and a in AGENTS]
     ob_share = 0.42 if focus else 0.30
+    pend = w.__dict__.setdefault("pending_ops", [])
+    while pend:
+        it = pend.pop(0)
+        op = it(lpf, dy) if callable(it) else it
+        if op:
+            return op
+    if w.cfg.get("boost") and auth and rng.random() < (0.10 if focus else 0.07):
+        # scripted: an on-behalf stake that pays out BOOSTED rewards of the LP farm (and of the staking farm): the user hands a
+        # position to an authorised agent, the agent stakes part of it on behalf; a week passes, somebody else's LP-farm
+        # operation folds that week's rewards into its pool, another week starts; the agent stakes the rest together with the
+        # dual-yield token (the LP-farm merge pays the user's LP-farm boosted rewards)
+        withe = [(u, a) for (u, a) in auth if lpf[u] and w.cfg.get("energy", {}).get(str(u)) and not w.last.get("black", {}).get(a)]
+        if withe:
+            u, a = rng.choice(withe)
+            n, have = max(lpf[u], key=lambda t: t[1])
+            if have >= 4:
+                third = rng.choice([x for x in USERS if x != u])
+                week = lambda: ["Time", rng.choice([3, 10, 100]), rng.choice([50, 700]), rng.choice([7, 7, 8])]
+
+                def first(lpf_, dy_):
+                    mine = dict(lpf_[a]).get(n, 0)
+                    return ["StakeOB", a, u, [[TK_LPF, n, max(1, mine // 2)]]] if mine >= 2 else None
+
+                def second(lpf_, dy_):
+                    mine = dict(lpf_[a]).get(n, 0)
+                    ds = [(dn, dh) for (dn, dh) in dy_[a] if dy_owner(w, dn) == (u, u)]
+                    if not mine or not ds:
+                        return None
+                    dn, dh = max(ds)
+                    return ["StakeOB", a, u, [[TK_LPF, n, mine if rng.random() < 0.5 else max(1, mine // 2)], [TK_DY, dn, dh]]]
+                pend.extend([first, week(), ["Enter", third, max(1500, 10 ** rng.randint(4, 7))], week(), second])
+                return ["XferLpf", u, a, n, have]
     if roll < 0.05:
         # hub operations
         c = rng.random()
